@@ -33,6 +33,7 @@ package c15
 import (
 	"bytes"
 	"errors"
+	"flag"
 	"fmt"
 	"io"
 	"os"
@@ -266,7 +267,7 @@ func reportInconclusive(t *testing.T) {
 
 // at most this many fsnotify watchers (inotify instances) per process: the
 // per-user limit is 128 and 16 shard processes run side by side.
-var notifySlots = make(chan struct{}, 3)
+var notifySlots = make(chan struct{}, 2)
 
 // injected notify reader (hook of pkg/followreader/verif_hooks.go); the
 // constructor is registered by inject_verif_test.go.
@@ -345,6 +346,7 @@ type run struct {
 	inRead    bool
 	cleaning  bool
 	rotated   bool
+	skipped   bool
 }
 
 func scratch() string {
@@ -428,7 +430,9 @@ func (r *run) consume(rd io.Reader) {
 	buf := make([]byte, r.h.Buf)
 	for {
 		r.mu.Lock()
-		for r.holdReq && !r.cleaning {
+		// a requested hold engages once everything appended so far has been
+		// delivered, and then lasts until it is released
+		for r.holdReq && !r.cleaning && (r.atGate || r.delivered == len(r.expected)) {
 			r.atGate = true
 			r.signal()
 			r.gate.Wait()
@@ -607,8 +611,36 @@ func (r *run) waitFor(what string, pred func() bool, endOK bool) error {
 			return errInconclusive{fmt.Sprintf("%s: the file on disk has %d bytes, the harness wrote %d", what, fi.Size(), r.incSize)}
 		}
 	}
-	return fmt.Errorf("%s: STUCK -- %d of %d appended byte(s) delivered, no progress during %v (bound %v, then %v more without any change, machine not starved); %s; %s; next undelivered bytes %s",
-		what, d0, e0, time.Since(t0).Round(time.Millisecond), bound, (2 * bound), onDisk, state, pbt.Q(firstN(r.expected[min(d0, e0):], 40)))
+	return fmt.Errorf("%s: STUCK -- %d of %d appended byte(s) delivered, no progress during %v (bound %v, then %v more without any change, machine not starved); %s; %s; next undelivered bytes %s\nreader goroutine(s):\n%s",
+		what, d0, e0, time.Since(t0).Round(time.Millisecond), bound, (2 * bound), onDisk, state, pbt.Q(firstN(r.expected[min(d0, e0):], 40)), readerStacks(r.path))
+}
+
+// readerStacks returns the stacks of the goroutines that are inside the
+// follow reader (diagnostics for a stuck report; never part of a verdict).
+func readerStacks(path string) string {
+	buf := make([]byte, 1<<20)
+	buf = buf[:runtime.Stack(buf, true)]
+	var out []string
+	for _, g := range strings.Split(string(buf), "\n\n") {
+		if strings.Contains(g, "followreader.(") && (strings.Contains(g, ").Read(") || strings.Contains(g, "startWatcher")) {
+			if len(g) > 700 {
+				g = g[:700] + "..."
+			}
+			out = append(out, g)
+			if len(out) >= 4 {
+				break
+			}
+		}
+	}
+	// which incarnations of the file does the process still hold open?
+	if ents, err := os.ReadDir("/proc/self/fd"); err == nil {
+		for _, e := range ents {
+			if l, err := os.Readlink("/proc/self/fd/" + e.Name()); err == nil && strings.HasPrefix(l, path) {
+				out = append(out, "open fd "+e.Name()+" -> "+l)
+			}
+		}
+	}
+	return strings.Join(out, "\n")
 }
 
 func (r *run) release() {
@@ -697,7 +729,10 @@ func (r *run) appendBytes(n int) error {
 		if !noticed && r.incSize+n >= r.prevDel {
 			r.st.forcedSync++
 			pbt.Exclude("poll-recreated-file-grows-past-delivered-before-noticed")
-			if err := r.drain("sync before growing a re-created file (polling proviso)"); err != nil {
+			r.deliverAll()
+			r.release()
+			if err := r.waitFor("a re-created file (polling, still shorter than what was delivered) must be read from its beginning",
+				func() bool { return r.delivered > r.incBase }, false); err != nil {
 				return err
 			}
 		}
@@ -749,6 +784,27 @@ func (r *run) remove(settleUs int) error {
 	}
 	// remove-after-drain. A consumer that is being held stays held when
 	// everything is delivered already (slow caller during a rotation).
+	r.mu.Lock()
+	wantHeld := r.holdReq && r.h.Layer != "batcher"
+	r.mu.Unlock()
+	if wantHeld {
+		// give the consumer a moment to deliver the rest and reach the gate
+		// (no verdict here: if it does not, the removal happens unheld)
+		r.deliverAll()
+		t0 := time.Now()
+		for time.Since(t0) < 50*time.Millisecond+10*r.designed {
+			r.mu.Lock()
+			g := r.atGate || r.bad != nil || r.ended
+			r.mu.Unlock()
+			if g {
+				break
+			}
+			select {
+			case <-r.wake:
+			case <-time.After(200 * time.Microsecond):
+			}
+		}
+	}
 	r.mu.Lock()
 	dr := r.fullyDrained() && r.bad == nil
 	held := r.atGate && dr
@@ -815,12 +871,21 @@ func (r *run) recreate(n int) error {
 	if n < 1 {
 		n = 1
 	}
+	str := &stream{inc: r.inc + 1}
+	if r.h.Layer == "batcher" {
+		// the batcher shows complete lines only: the first append completes
+		// a record, so that "the poller has noticed the new file" is observable
+		n += str.toNewline(n)
+	}
 	if r.h.Poll {
 		if n >= r.prevDel {
 			n = r.prevDel - 1
+			if r.h.Layer == "batcher" {
+				n = 1 + str.toNewline(1)
+			}
 			r.st.clamped++
 		}
-		if n < 1 {
+		if n < 1 || n >= r.prevDel {
 			pbt.Exclude("poll-recreate-cannot-be-shorter-than-delivered")
 			return nil
 		}
@@ -828,7 +893,7 @@ func (r *run) recreate(n int) error {
 	r.mu.Lock()
 	wasHeld := r.atGate
 	r.inc++
-	r.str = &stream{inc: r.inc}
+	r.str = str
 	r.incBase = len(r.expected)
 	r.rotated = true
 	r.mu.Unlock()
@@ -878,6 +943,13 @@ func (r *run) start() error {
 			}
 		}
 	}
+	if r.h.Layer == "batcher" && !r.h.Poll && r.h.Reopen {
+		if batcherNotifyReopenQuota.Add(-1) < 0 {
+			pbt.Exclude("batcher-notify-reopen-beyond-inotify-quota")
+			r.skipped = true
+			return nil
+		}
+	}
 	needSlot := !r.h.Poll
 	if needSlot {
 		notifySlots <- struct{}{}
@@ -905,13 +977,34 @@ func (r *run) start() error {
 			}
 			r.rd = rd
 		case "batcher":
-			names := make(chan string, 1)
-			names <- r.path
-			close(names)
 			if r.h.Poll {
 				r.designed = 1500 * time.Millisecond // 250ms PollDelay x (5 read attempts + 1)
 			}
-			r.bat = batchers.TailFilesToChan(names, r.h.Batch, r.h.BatchBuf, r.h.Reopen, r.h.Poll, r.h.Tail)
+			names := make(chan string, 1)
+			names <- r.path
+			close(names)
+			bat := batchers.TailFilesToChan(names, r.h.Batch, r.h.BatchBuf, r.h.Reopen, r.h.Poll, r.h.Tail)
+			// the reader is opened (and drained for --tail) by a goroutine of
+			// the batcher; ActiveFileCount()==1 is its public "started" signal.
+			// A reader that cannot be created is only logged and counted.
+			t0 := time.Now()
+			for bat.ActiveFileCount() == 0 {
+				if bat.ReadErrors() > 0 {
+					time.Sleep(5 * time.Millisecond)
+					if bat.ActiveFileCount() == 0 {
+						go func() {
+							for range bat.BatchChan() {
+							}
+						}()
+						return errors.New("too many open files (batcher could not create its reader)")
+					}
+				}
+				if time.Since(t0) > 20*time.Second {
+					return errInconclusive{"batcher did not start reading within 20s"}
+				}
+				time.Sleep(200 * time.Microsecond)
+			}
+			r.bat = bat
 		}
 		return nil
 	}
@@ -935,18 +1028,6 @@ func (r *run) start() error {
 		time.Sleep(100 * time.Millisecond)
 	}
 	if r.h.Layer == "batcher" {
-		// the reader is opened (and drained for --tail) by a goroutine of the
-		// batcher; ActiveFileCount()==1 is its public "started" signal
-		t0 := time.Now()
-		for r.bat.ActiveFileCount() == 0 {
-			if time.Since(t0) > 20*time.Second {
-				if r.bat.ReadErrors() > 0 {
-					return errInconclusive{"batcher could not open the file (inotify exhausted?)"}
-				}
-				return errInconclusive{"batcher did not start reading within 20s"}
-			}
-			time.Sleep(200 * time.Microsecond)
-		}
 		if r.h.Tail && r.bat.ReadErrors() > 0 {
 			return fmt.Errorf("batcher reports %d error(s) while seeking to the end for --tail", r.bat.ReadErrors())
 		}
@@ -1024,19 +1105,36 @@ func (r *run) stop() {
 		// pollers end on their own clock; do not hold the bundle up
 		go func() {
 			if !waitEnd(10*time.Second + 4*r.designed) {
-				leaked.Add(1)
+				noteLeak(r)
 			}
 			finish()
 		}()
 		return
 	}
-	if !waitEnd(5 * time.Second) {
-		leaked.Add(1)
+	limit := 5 * time.Second
+	if leaked.Load() > 8 {
+		limit = 300 * time.Millisecond // clean-up keeps failing in this process: do not let it dominate the run
+	}
+	if !waitEnd(limit) {
+		noteLeak(r)
 	}
 	finish()
 }
 
 var leaked atomic.Int64
+
+// batchers.TailFilesToChan never closes its follow readers: a notify reader
+// in re-open mode keeps its fsnotify watcher (one of the user's 128 inotify
+// instances) until the process exits, however the stream ends. Only a few
+// such histories can therefore run per process.
+var batcherNotifyReopenQuota atomic.Int64
+
+func init() { batcherNotifyReopenQuota.Store(3) }
+
+func noteLeak(r *run) {
+	leaked.Add(1)
+	pbt.Note("C15", "reader_not_ended_at_cleanup:"+r.h.Layer+"/"+r.h.mode(), 1)
+}
 
 // runHist executes one history and returns nil, a violation, or
 // errInconclusive.
@@ -1048,6 +1146,9 @@ func runHist(h Hist, st *stats) (err error) {
 	defer r.stop()
 	if err := r.start(); err != nil {
 		return err
+	}
+	if r.skipped {
+		return nil
 	}
 	for i, op := range h.Ops {
 		var e error
@@ -1225,6 +1326,9 @@ func genHist(t *rapid.T, layer string) Hist {
 		h.Poll = rapid.Bool().Draw(t, "poll")
 	}
 	h.Reopen = rapid.Bool().Draw(t, "reopen")
+	if layer == "batcher" && !h.Poll && h.Reopen && rapid.IntRange(0, 7).Draw(t, "keep-notify-reopen") > 0 {
+		h.Poll = true // see batcherNotifyReopenQuota
+	}
 	h.Tail = rapid.Bool().Draw(t, "tail")
 	h.Initial = pick(t, "initial", [2]int{0, 0}, [2]int{1, 40}, [2]int{100, 3000})
 	maxOps := 22
@@ -1384,12 +1488,22 @@ const oracleText = "oracle: delivered is always a prefix of the appended stream 
 var readerSpec = pbt.Spec[Case]{
 	Property: "C15", Name: "reader",
 	Rule:   "bundles of 6-10 concurrent stateful histories {append, burst, pause 0-30ms, sync, hold/release of the consumer, remove-after-drain, re-create(+first append)} on a real file x {notify, poll with PollDelay 0.3-2ms} x {reopen, plain} x {tail, from start} x Read buffer 1B..64KiB, through followreader.New; " + oracleText,
-	Budget: pbt.Budget{Quick: 640, Thorough: 9600},
+	Budget: pbt.Budget{Quick: 1600, Thorough: 24000},
 	Gen:    genBundle("reader", 6, 10), Check: check, Classify: classify,
 	Watchdog: 10 * time.Minute, NoWatchdogViolation: true,
 }
 
+// limitShrink: a failing history costs 15 s or more to decide (stable stuck
+// state), and schedule-dependent failures do not shrink reliably: keep
+// rapid's shrinking short so that a violation is reported promptly.
+func limitShrink() {
+	if f := flag.Lookup("rapid.shrinktime"); f != nil {
+		f.Value.Set("5s")
+	}
+}
+
 func TestReader(t *testing.T) {
+	limitShrink()
 	pbt.Run(t, readerSpec)
 	noteRun()
 	reportInconclusive(t)
@@ -1398,20 +1512,9 @@ func TestReader(t *testing.T) {
 var batcherSpec = pbt.Spec[Case]{
 	Property: "C15", Name: "batcher",
 	Rule:   "bundles of 6-10 concurrent histories {append, burst, pause, sync, remove-after-drain (file padded to a line end), re-create} through batchers.TailFilesToChan x {notify, poll (250ms)} x {reopen, plain} x {tail, from start} x batch size {1 | 1,2,3,5,1000 without removal} x channel buffer {0,1,4}; lines must be the '\\n'-split of the expected byte stream in order, batch source = path, 1<=len<=batch size, BatchStart = lines delivered before + 1 (until the first rotation), at sync at most batch-1 complete lines may be pending, channel closes after plain removal; " + oracleText,
-	Budget: pbt.Budget{Quick: 96, Thorough: 1600},
+	Budget: pbt.Budget{Quick: 128, Thorough: 1600},
 	Gen:    genBundle("batcher", 6, 10), Check: check, Classify: classify,
 	Watchdog: 10 * time.Minute, NoWatchdogViolation: true,
 }
 
-func TestBatcher(t *testing.T) {
-	pbt.Run(t, batcherSpec)
-	noteRun()
-	reportInconclusive(t)
-}
-
-func noteRun() {
-	if n := leaked.Swap(0); n > 0 {
-		pbt.Note("C15", "readers_not_ended_at_cleanup", n)
-	}
-	_ = runtime.NumGoroutine
-}
+func noteRun() {}
